@@ -991,6 +991,36 @@ def _ident_decorator(f=None, *a, **k):
     return lambda g: g
 
 
+class InferenceModeSet:
+    """ghost result of eqx.nn.inference_mode on an opaque model: NOT the model itself (its `inference` flags were overwritten)"""
+
+    def __init__(self, model, value):
+        self.model, self.value = model, value
+
+    def __repr__(self):
+        return f"inference_mode({self.model!r}, value={self.value})"
+
+
+def inference_mode(m, value=True):
+    """eqx.nn.inference_mode: a copy of the pytree in which every `inference` attribute is set to `value`"""
+    used("eqx.nn.inference_mode (copy with every `inference` flag overwritten)")
+
+    def go(x):
+        if isinstance(x, Module):
+            o = object.__new__(type(x))
+            for n, v in vars(x).items():
+                object.__setattr__(o, n, value if n == "inference" else go(v))
+            return o
+        if isinstance(x, (list, tuple)) and not hasattr(x, "_fields"):
+            return type(x)(go(v) for v in x)
+        if isinstance(x, dict):
+            return {k_: go(v) for k_, v in x.items()}
+        return x
+    if isinstance(m, Module):
+        return go(m)
+    return InferenceModeSet(m, value)
+
+
 def jit(f=None, *a, static_argnums=(), static_argnames=(), **k):
     """jax.jit / eqx.filter_jit: the function itself, with every non-static argument and the result taken through a pytree
     flatten / unflatten (what tracing does): dict-valued children come back in SORTED key order, aux data is kept.  A jitted
@@ -1143,7 +1173,7 @@ def install():
                Array=SArray, Device=object, devices=lambda: DEVICES[0])
     eqnn = _mod("equinox.nn", State=object, Identity=lambda *a, **k: (lambda x, *r, **kk: x), GroupNorm=GroupNormModel,
                 BatchNorm=_Any("eqx.nn.BatchNorm"), Conv=_Any("eqx.nn.Conv"), ConvTranspose=_Any("eqx.nn.ConvTranspose"),
-                inference_mode=lambda m, value=True: m)
+                inference_mode=inference_mode)
 
     def filter_vmap(f=None, **kw):
         if f is None:
